@@ -45,7 +45,7 @@ def chain_worker(case):
                 res.append(['timeout', 'not run: two runs through this module already timed out'])
                 continue
             try:
-                fn = mod.parse if r[0] == 'start' else getattr(mod, r[0]).parse
+                fn = mod.parse if r[0] in ('start', 'Start') else getattr(mod, r[0]).parse
             except Exception as e:  # noqa
                 res.append(['exc', type(e).__name__, 'no entry point %s: %s' % (r[0], str(e)[:80])])
                 continue
@@ -158,7 +158,7 @@ def run(chk):
                 # An entry point R of module `top` that `top` merely inherits (B.R.parse with R defined in an
                 # ancestor) is observed but not judged: the property speaks of parsing through B, and whether the
                 # inherited entry-point object counts as "through B" is not stated (see DESIGN.md).
-                if x[0] != 'start' and not defined_at(chain_now, top, x[0]):
+                if x[0] not in ('start', 'Start') and not defined_at(chain_now, top, x[0]):
                     chk.notes['inherited_entry_points_not_judged'] = chk.notes.get('inherited_entry_points_not_judged', 0) + 1
                     continue
                 if exp[0] == 'ill':
